@@ -235,6 +235,10 @@ def rule_waitloop(ctx, rep):
         pat.require(polls, "compat_futex_async: no poll")
         lds = [i for i in g.all_insts() if i.op == "load" and i.d["ap"]["base"] == ["a", 0]]
         for p in polls:
+            lv_ = pat.dom_leaf_atoms(g, p)
+            okw = any(a[0] == "eq" and ((a[1][0] == "load" and a[2] == ("arg", 2)) or (a[2][0] == "load" and a[1] == ("arg", 2))) for a in lv_)
+            rep.check(okw, "C02.enosys", lib + ".compat.polls-while-equal", "the fallback keeps polling exactly while *uaddr == val", "the poll loop runs while %s: a waiter returns at once although nothing changed / sleeps although the word changed" %
+                      [ir.atom_str(a) for a in lv_ if len(a) == 3 and (a[1][0] == "load" or a[2][0] == "load")][:2], [p.where()])
             hit, par = g.reach([p], polls, avoid=lambda i: i in lds)
             rep.check(hit is None, "C02.enosys", lib + ".compat.poll-loop-retests", "every poll iteration re-reads the futex word",
                       "poll loop does not re-read the futex word", [p.where()])
@@ -280,6 +284,48 @@ def rule_leader(ctx, rep):
             rep.bad("C02.leader", fl + ".leader-marks-RUNNING", "the leader never marks its own wait node RUNNING: its wake-all pass treats the node as a sleeping waiter and spins for it to acknowledge", [push[0].where()])
         elif wk:
             rep.must_pass("C02.leader", fl + ".leader-marks-RUNNING", f, push, wk, lambda i: i in run, what="the leader's own node is RUNNING before the wake-all pass")
+
+
+def rule_qs(ctx, rep):
+    """qsbr: reporting a quiescent state.  When the thread's word differs from the global counter the new value is published
+    and a waiting grace period is woken; only when they are already equal may the function return without doing so (a prior
+    report of this thread covers it).  thread_offline always publishes 0 and wakes."""
+    F = FL["qsbr"]
+    m = ctx.mod("qsbr", "flat")
+    f = m.fn("urcu_qsbr_quiescent_state")
+    if f is None:
+        raise Broken("urcu_qsbr_quiescent_state vanished")
+    rep.touch(f)
+    own = c01.own_ctr(F)
+    pub = [e.inst for e in pat.accesses(f, F.rfield, ("store",), pred=own)]
+    same = set((t.blk.id, s_) for t, s_, a in pat.branch_edges_on(f, lambda a: a[0] == "eq" and a[1][0] == "load" and a[2][0] == "load" and
+                                                                   {a[1][1].split(".")[-1], a[2][1].split(".")[-1]} == {"ctr"} and a[1][1] != a[2][1]))
+    if not pub:
+        rep.bad("C02.qs", "quiescent_state.publishes", "urcu_qsbr_quiescent_state never stores the global counter into the thread's word: grace periods wait for this thread for ever", [f.name])
+    else:
+        pat.require(same, "quiescent_state: fast-path test")
+        rep.must_pass("C02.qs", "quiescent_state.publishes", f, [f.entry()], None, lambda i: i in pub, to_exit=True, include_start=True, edge_ok=pat.block_edge_filter(same),
+                      what="unless the word already equals the global counter, every return passes the store of the new value")
+        v = ir.expr(f, pub[0].args[0], 3)
+        rep.check(v[0] == "load" and v[1].endswith("urcu_gp.ctr"), "C02.qs", "quiescent_state.value", "publishes the global counter value it read", "publishes %s" % ir.expr_str(v), [pub[0].where()])
+        wk = [l for l in pat.loads(f, "urcu_qsbr_reader.waiting")]
+        if not wk:
+            rep.bad("C02.qs", "quiescent_state.wakes", "a reported quiescent state does not wake a waiting grace period", [pub[0].where()])
+        else:
+            rep.must_pass("C02.qs", "quiescent_state.wakes", f, pub, None, lambda i: i in wk, to_exit=True, what="after publishing, the grace period's waiting flag is tested (wake-up)")
+    # wake-up of a wait node: FUTEX_WAKE exactly when the waiter is not (yet) RUNNING, i.e. may be asleep
+    for fl in ("memb", "mb", "qsbr"):
+        wk = ctx.mod(FL[fl].lib, "perfn").fn("urcu_adaptative_wake_up")
+        if wk is None:
+            raise Broken("%s: urcu_adaptative_wake_up vanished" % fl)
+        rep.touch(wk)
+        RUN = ctx.mod(FL[fl].lib, "perfn").enum("urcu_wait_state", "URCU_WAIT_RUNNING")
+        for w in waitloop.wake_sites(wk):
+            lv = pat.dom_leaf_atoms(wk, w)
+            asleep = any(a[0] == "eq" and a[2] == ("c", 0) and a[1][0] == "bin" and a[1][1] == "and" and a[1][3] == ("c", RUN) for a in lv)
+            awake = any(a[0] == "ne" and a[2] == ("c", 0) and a[1][0] == "bin" and a[1][1] == "and" and a[1][3] == ("c", RUN) for a in lv)
+            rep.check(asleep and not awake, "C02.qs", fl + ".wake_up.wakes-sleepers", "FUTEX_WAKE is issued when the waiter has not marked itself RUNNING",
+                      "FUTEX_WAKE is issued only when the waiter already runs: a waiter asleep in FUTEX_WAIT is never woken", [w.where()])
 
 
 def rule_compat(ctx, rep):
@@ -654,5 +700,6 @@ RULES = [
     ("C02.lockorder", rule_lockorder),
     ("C02.enosys", rule_compat),
     ("C02.leader", rule_leader),
+    ("C02.qs", rule_qs),
 ]
 FLOORS = {}
